@@ -276,6 +276,7 @@ class World:
             'kill_node_removed_registration': 0, 'rt_registered': 0,
             'rt_waited': 0, 'rt_gave_up': 0, 'settle_rounds': 0,
             'liveness_checked_waiters': 0, 'watch_events_delivered': 0,
+            'older_registration_superseded': 0,
         }
         self.faults = {'session_expired': 0, 'expire_mid_handler': 0,
                        'svc_killed': 0, 'kill_node': 0, 'placement_moved': 0,
@@ -516,6 +517,21 @@ class World:
                             cont.rsrc_id, cont.seq, host.name, dpath,
                             other.rsrc_id, other.seq, other.inst, other.host))
                     return res
+        # An OLDER container whose nodes this clean-up removed (the newer
+        # container had taken its registration over; the statement protects
+        # newer containers only) is no longer registered: nodes that a later
+        # re-evaluation of some other request creates at the same paths are
+        # not "registered and acknowledged" for it.
+        for _seq, dsid, dop, dpath, owner_before, _x in self.zk.oplog[pos:]:
+            if dop != 'delete' or dsid != sid:
+                continue
+            for other in self.conts.values():
+                if other.inst == cont.inst and other.rank < cont.rank and \
+                        self._valid(other) and \
+                        owner_before == other.acked_sid and \
+                        any(p == dpath for _k, p in other.paths):
+                    other.voided = True
+                    self.probes['older_registration_superseded'] += 1
         return res
 
     # ------------------------------------------------------------------
